@@ -32,7 +32,7 @@ func TestMkReplay(t *testing.T) {
 			ast.ExprS(ast.Method(ast.Id("b"), "push", ast.Num("3"))),
 			ast.Print(ast.Id("a"), ast.Id("b")),
 		)))}
-		write("KF-array-alias.json", "C09", "locality",
+		write("FX-C09-array-alias.json", "C09", "locality",
 			"b = a; b.push(3): the push is invisible through a (an array's length lives in each copy of the array value)", c, c.Source())
 	}
 	write("FX-C03-stray-bracket.json", "C03", "stream", "[1] ] [2]: a stray ']' between values ended the run silently with success",
